@@ -6,7 +6,7 @@ SD=$(readlink -f "$1"); PROP=$2; shift 2
 ID=$(basename "$SD"); WT=/tmp/mt_${ID}_$PROP
 rm -rf "$WT"; git -C /repo worktree prune
 git -C /repo worktree add -q --detach "$WT" HEAD || exit 2
-if ! git -C "$WT" apply "$SD/patch.diff"; then echo "PATCH DOES NOT APPLY: $ID"; git -C /repo worktree remove --force "$WT"; exit 2; fi
+if ! git -C "$WT" apply "$SD/patch.diff" 2>/dev/null && ! git -C "$WT" apply -C1 --recount "$SD/patch.diff" 2>/dev/null && ! (cd "$WT" && patch -p1 -F3 -s < "$SD/patch.diff"); then echo "PATCH DOES NOT APPLY: $ID"; git -C /repo worktree remove --force "$WT"; exit 2; fi
 mkdir -p /tmp/mt_out/$ID
 cd /verif
 VERIF_REPO="$WT" VERIF_EVIDENCE_DIR=/tmp/mt_out/$ID/evidence VERIF_REPLAY_DIR=/tmp/mt_out/$ID/replays ./check $PROP --tier ${TIER:-quick} "$@" > /tmp/mt_out/$ID/$PROP.log 2>&1
